@@ -29,12 +29,51 @@ type target struct {
 	sys *sys.System
 }
 
-func newTarget(state, via string) target {
+// nullFirst: arrays are sets in the specification and TLC happens to write null last; the real
+// code sorts arrays, and a null BEFORE other atoms is the order that exercises its comparison.
+func nullFirst(x interface{}) interface{} {
+	switch v := x.(type) {
+	case map[string]interface{}:
+		for k, y := range v {
+			v[k] = nullFirst(y)
+		}
+	case []interface{}:
+		out := make([]interface{}, 0, len(v))
+		for _, y := range v {
+			if y == nil {
+				out = append(out, y)
+			}
+		}
+		for _, y := range v {
+			if y != nil {
+				out = append(out, nullFirst(y))
+			}
+		}
+		return out
+	}
+	return x
+}
+
+// hasPropKey: the document sets a property ("!..."): such documents go through a System that
+// caches nothing, so that the location is opened again (from storage) for every later call.
+func hasPropKey(doc map[string]interface{}) bool {
+	for k := range doc {
+		if len(k) > 1 && k[0] == '!' {
+			return true
+		}
+	}
+	return false
+}
+
+func newTarget(state, via string, reopen bool) target {
 	ctx := core.NewContext("verif")
 	ctx.Verbosity = core.NOTHING
 	if via == "system" {
 		conf := sys.SystemConfig{Storage: "mem", UnindexedState: state == "linear"}
 		cont := sys.SystemControl{CachePending: true, LocationTTL: sys.Forever}
+		if reopen {
+			cont.LocationTTL = sys.Never
+		}
 		c := core.DefaultControl()
 		c.Verbosity = core.NOTHING
 		cont.DefaultLocControl = c
@@ -43,7 +82,11 @@ func newTarget(state, via string) target {
 		if err != nil {
 			panic(err)
 		}
-		s, err := sys.NewSystem(ctx, conf, cont, &cron.InternalCron{Cron: cr})
+		var cronner cron.Cronner = &cron.InternalCron{Cron: cr}
+		if reopen {
+			cronner = world.NewRecCron(true) // a System that does not cache wants a persistent cron
+		}
+		s, err := sys.NewSystem(ctx, conf, cont, cronner)
 		if err != nil {
 			panic(err)
 		}
@@ -243,7 +286,7 @@ func main() {
 			fmt.Fprintln(os.Stderr, "bad document line:", err)
 			os.Exit(2)
 		}
-		if m, ok := enc.Decode(x).(map[string]interface{}); ok {
+		if m, ok := nullFirst(enc.Decode(x)).(map[string]interface{}); ok {
 			all = append(all, m)
 		}
 	}
@@ -273,13 +316,13 @@ func main() {
 		for _, use := range uses {
 			for _, state := range []string{"indexed", "linear"} {
 				vias := []string{"direct"}
-				if di%*sysEach == 0 || doc["schedule"] != nil {
+				if di%*sysEach == 0 || doc["schedule"] != nil || hasPropKey(doc) {
 					vias = append(vias, "system")
 				}
 				for _, via := range vias {
 					fmt.Fprintf(jf, "%s\n", js(J{"di": di, "doc": doc, "use": use, "state": state, "via": via}))
 					jf.Sync()
-					tg := newTarget(state, via)
+					tg := newTarget(state, via, hasPropKey(doc))
 					steps := []stepRes{}
 					run := func(label, name, id string, d map[string]interface{}) bool {
 						r := guarded(hard, label, func() (string, interface{}, []J) { return tg.call(name, id, d) })
